@@ -175,6 +175,7 @@ fn feed(ctx: &mut Ctx, kind: u8, s: &str, shape: &'static str) {
         }
     }
     ctx.add("calls", eps_of(kind).len() as u64);
+    ctx.add("evals", eps_of(kind).len() as u64);
 }
 
 fn deb_sweep(ctx: &mut Ctx, idx: u64) {
